@@ -55,7 +55,10 @@ def scenario(desc):
     prefix_max = desc.get("prefix_max", maxr)   # retention setting while the prefix runs were made
     s = sc.Scratch("c13")
     try:
-        r = sc.Repo(s, "r", TARGETS, commands={t["path"]: {"build": "x"} for t in TARGETS}, max_retained_runs=prefix_max)
+        od = desc.get("out_dir")
+        r = sc.Repo(s, "r", TARGETS, commands={t["path"]: {"build": "x"} for t in TARGETS}, max_retained_runs=prefix_max,
+                    cfg_extra={"out_dir": od} if od else None,
+                    files={".gitignore": "monorail-out\n%s\n" % od.split("/")[0]} if od else None)
         viol = []
         # a checkpoint with pending entries
         r.write("a/pending.txt", "pending\n")
@@ -185,6 +188,11 @@ def scenarios(tier):
                 out.append({"max": maxr, "prefix": k, "crash": {"kind": "point", "name": name}})
             for st in KILL_STATES:
                 out.append({"max": maxr, "prefix": k, "crash": {"kind": "kill", "state": list(st)}})
+    # a custom, nested output directory whose name contains a space
+    for name in POINTS:
+        out.append({"max": 2, "prefix": 2, "out_dir": "var/mr out", "crash": {"kind": "point", "name": name}})
+    for st in KILL_STATES:
+        out.append({"max": 2, "prefix": 2, "out_dir": "var/mr out", "crash": {"kind": "kill", "state": list(st)}})
     # retention setting changed between runs: prefix made with a larger (or smaller) max_retained_runs
     for (pm, k, maxr) in ([(5, 4, 3), (5, 5, 2), (2, 2, 4)] if tier == "quick" else [(5, 4, 3), (5, 5, 2), (5, 3, 2), (2, 2, 4), (3, 3, 5), (6, 6, 3)]):
         for name in POINTS:
